@@ -60,9 +60,12 @@ def library():
         nm = "note-" + t0[1][1:]  # unique inside a document, the same in every document that uses the block at this position
         if shape == "p":
             return ("p", [t0, ("refn", nm, [T(k), T(k)]), T(k), ("refuse", nm)])
+        if shape == "late":  # used before it is defined
+            return ("p", [t0, ("refuse", nm), T(k), ("refn", nm, [T(k), T(k)]), ("refuse", nm)])
         return ("list", "*", [([t0, ("refn", nm, [T(k)])], None), ([T(k), ("refuse", nm)], None)])
     add("p-ref-named", lambda k: named(k, "p"))
     add("ul-ref-named", lambda k: named(k, "ul"))
+    add("p-ref-named-late", lambda k: named(k, "late"))
     add("p-italic-link", lambda k: ("p", [("i", [("link", k(), [T(k)])])]))
     add("ul", lambda k: ("list", "*", [([T(k)], None), ([T(k)], None)]))
     add("ol", lambda k: ("list", "#", [([T(k)], None), ([T(k)], None)]))
@@ -82,6 +85,14 @@ def library():
                                            [("c", [T(k)]), ("c", [T(k)])]], False, None))
     add("table-nested", lambda k: ("table", [[("cb", [("table", [[("c", [T(k)]), ("c", [T(k)])], [("c", [T(k)]), ("c", [T(k)])]], False, None)]),
                                               ("c", [T(k)])], [("c", [T(k)]), ("c", [T(k)])]], False, None))
+    def longlist(k, n):
+        return ("list", "*", [([T(k)], None) for _ in range(n)])
+    # a row whose cells mix running text with a long list, next to a cell that holds a list only / nothing
+    add("table-mixed-longlist", lambda k: ("table", [[("cb", [("p", [T(k), T(k)]), longlist(k, 6)]), ("cb", [longlist(k, 2)])],
+                                                      [("c", [T(k)]), ("c", [T(k)])]], False, None))
+    add("table-mixed-longlist-empty", lambda k: ("table", [[("cb", [("p", [("b", [T(k)]), T(k)]), longlist(k, 7)]), ("c", [])],
+                                                            [("c", [T(k)]), ("c", [T(k)])]], False, None))
+    add("table-longlists", lambda k: ("table", [[("cb", [longlist(k, 6)]), ("cb", [longlist(k, 3)])], [("c", [T(k)]), ("c", [T(k)])]], False, None))
     add("table-sparse-last", lambda k: ("table", [[("c", [T(k)]), ("c", [T(k)])], [("c", [T(k)]), ("c", [])]], False, None))
     add("table-sparse-all", lambda k: ("table", [[("c", [T(k)]), ("c", [])], [("c", []), ("c", [T(k)])]], False, None))
     add("pre", lambda k: ("pre", [k(), k()]))
